@@ -4,6 +4,7 @@ package p2p
 
 import (
 	"context"
+	"time"
 
 	pubsub "github.com/libp2p/go-libp2p-pubsub"
 	"github.com/libp2p/go-libp2p/core/peer"
@@ -73,4 +74,22 @@ func (ex *Exchange[H]) VerifTrackedPeers() []peer.ID {
 		out = append(out, id)
 	}
 	return out
+}
+
+// VerifRecordOutcome books one request outcome on a tracked peer exactly as session.doRequest does:
+// a success of `size` bytes that took `took` (updateStats), or, with size < 0, a NOT_FOUND/empty
+// answer (decreaseScore). It returns the resulting score.
+func (ex *Exchange[H]) VerifRecordOutcome(id peer.ID, size int, took time.Duration) float32 {
+	ex.peerTracker.peerLk.RLock()
+	st := ex.peerTracker.trackedPeers[id]
+	ex.peerTracker.peerLk.RUnlock()
+	if st == nil {
+		return 0
+	}
+	if size < 0 {
+		st.decreaseScore()
+	} else {
+		st.updateStats(size, took)
+	}
+	return st.score()
 }
